@@ -4,7 +4,7 @@
 #  2. seeded/  (breaking changes written by sub-agents): every seed is reported by its own check;
 #  3. regress/ (reverse patches of the fix: commits): every revert is reported;
 #  4. refactors/ (behaviour-preserving refactorings written by sub-agents): every check is silent;
-#  5. mechanical rewrites (bin/mech: rename, recv, locals, shift, ifflip, vardecl): every check is silent.
+#  5. mechanical rewrites (bin/mech: rename, recv, locals, shift, ifflip, vardecl, m2f, f2m, fnrename): every check is silent.
 # Steps 2-4 apply each patch to /repo and undo it (git apply / git checkout), as the task prescribes;
 # step 5 works on throw-away worktrees under /tmp/rx.  "quick" skips steps 2 and 4 (the long ones).
 cd /verif || exit 2
@@ -26,7 +26,7 @@ fi
 echo "== 5. mechanical rewrites"
 (cd tools/mech && go build -o /verif/bin/mech .) || exit 2
 mkdir -p /tmp/rx
-for m in shift rename recv locals ifflip vardecl; do
+for m in shift rename recv locals ifflip vardecl m2f f2m fnrename; do
   wt=/tmp/rx/selftest-$m
   git -C /repo worktree remove --force $wt 2>/dev/null; git -C /repo worktree prune
   git -C /repo worktree add -q --detach $wt HEAD || exit 2
